@@ -129,6 +129,8 @@ def gen_string(rng, idx, canary_dir):
                                                                                    f"(__import__ ('os').mkdir ('{canary}') is None)", f"open('{canary}','w').close()"])
     pos = rng.randrange(0, len(body) + 1)
     s = body[:pos] + marker + (payload or '') + body[pos:]
+    if rng.random() < 0.06:
+        s = '=' + s          # a text that looks like a formula (as a constant it is written as a text cell)
     return s, marker, idx, payload is not None
 
 
@@ -147,7 +149,8 @@ def place(rng, s, how):
     """-> (cell text, expected round-trip value or None)"""
     if how == 'const':
         if s.startswith('='):
-            s = ' ' + s
+            # stored as TEXT (typed with a leading apostrophe): a constant like any other text, never a formula
+            return wbspec.TextCell(s), s
         return s, s
     if how == 'literal':
         return '=' + q(s), s
